@@ -76,8 +76,9 @@ def opOaSchema (j : Lean.Json) : Lean.Json :=
   Lean.Json.arr ((getStrList j "messages").map fun full =>
     match rq.findMessage full with
     | none => Lean.Json.mkObj [("full", jstr full), ("modelled", Lean.Json.bool false)]
-    | some m => Lean.Json.mkObj [("full", jstr full), ("modelled", Lean.Json.bool (OaSchema.modelled m)),
-        ("schema", toLeanJson (OaSchema.messageSchema rq m))]).toArray |> fun a => Lean.Json.mkObj [("schemas", a),
+    | some m => Lean.Json.mkObj [("full", jstr full), ("modelled", Lean.Json.bool (OaSchema.componentModelled m)),
+        ("schema", toLeanJson (OaSchema.componentSchema rq m)),
+        ("variants", Lean.Json.mkObj ((OaSchema.flattenedVariantComponents rq m).map fun c => (String.ofList c.1, toLeanJson c.2)))]).toArray |> fun a => Lean.Json.mkObj [("schemas", a),
     ("builtin", Lean.Json.mkObj (OaSchema.builtinComponents.map fun c => (String.ofList c.1, toLeanJson c.2)))]
 
 end Sebuf.Driver
